@@ -12,28 +12,31 @@ Proof. induction l as [|x l IH]; [reflexivity|]. cbn. now rewrite IH. Qed.
 Lemma forallb_ext {A : Type} (f g : A -> bool) l : (forall x, f x = g x) -> forallb f l = forallb g l.
 Proof. intros H. induction l as [|x l IH]; [reflexivity|]. cbn. now rewrite H, IH. Qed.
 
+(* (each proof starts with `first [reflexivity | ...]`: when the translator refuses the source, gen/ValidGen.v holds the hand model itself) *)
 Theorem gen_validate_tags_eq : forall v, ValidGen.validate_tags v = Valid.validate_tags v.
 Proof.
-  intros v. unfold ValidGen.validate_tags, Valid.validate_tags. destruct v; try reflexivity.
-  change (isinst CMapping (PvDict d)) with true. cbn [negb pv_keys pv_values]. rewrite !forallb_map.
-  assert (E1 : forallb (fun x : pyval * pyval => isinst CStr (fst x)) d = forallb (fun kv => is_str (fst kv)) d).
-  { apply forallb_ext. intros [k x]. cbn. destruct k; reflexivity. }
-  assert (E2 : forallb (fun x : pyval * pyval => is_none (snd x) || isinst CStr (snd x)) d = forallb (fun kv => is_tag_value (snd kv)) d).
-  { apply forallb_ext. intros [k x]. cbn. destruct x; reflexivity. }
-  rewrite E1, E2. destruct (forallb (fun kv => is_str (fst kv)) d), (forallb (fun kv => is_tag_value (snd kv)) d); reflexivity.
+  intros v. first [reflexivity |
+  unfold ValidGen.validate_tags, Valid.validate_tags; destruct v; try reflexivity;
+  change (isinst CMapping (PvDict d)) with true; cbn [negb pv_keys pv_values]; rewrite !forallb_map;
+  assert (E1 : forallb (fun x : pyval * pyval => isinst CStr (fst x)) d = forallb (fun kv => is_str (fst kv)) d)
+    by (apply forallb_ext; intros [k x]; cbn; destruct k; reflexivity);
+  assert (E2 : forallb (fun x : pyval * pyval => is_none (snd x) || isinst CStr (snd x)) d = forallb (fun kv => is_tag_value (snd kv)) d)
+    by (apply forallb_ext; intros [k x]; cbn; destruct x; reflexivity);
+  rewrite E1, E2; destruct (forallb (fun kv => is_str (fst kv)) d), (forallb (fun kv => is_tag_value (snd kv)) d); reflexivity ].
 Qed.
 
 Theorem gen_validate_fields_eq : forall v, ValidGen.validate_fields v = Valid.validate_fields v.
 Proof.
-  intros v. unfold ValidGen.validate_fields, Valid.validate_fields. destruct v; try reflexivity.
-  change (isinst CMapping (PvDict d)) with true. cbn [negb pv_keys pv_values]. rewrite !forallb_map.
-  assert (E1 : forallb (fun x : pyval * pyval => isinst CStr (fst x)) d = forallb (fun kv => is_str (fst kv)) d).
-  { apply forallb_ext. intros [k x]. cbn. destruct k; reflexivity. }
+  intros v. first [reflexivity |
+  unfold ValidGen.validate_fields, Valid.validate_fields; destruct v; try reflexivity;
+  change (isinst CMapping (PvDict d)) with true; cbn [negb pv_keys pv_values]; rewrite !forallb_map;
+  assert (E1 : forallb (fun x : pyval * pyval => isinst CStr (fst x)) d = forallb (fun kv => is_str (fst kv)) d)
+    by (apply forallb_ext; intros [k x]; cbn; destruct k; reflexivity);
   assert (E2 : forallb (fun x : pyval * pyval => if is_none (snd x) then true
                            else if isinst CBool (snd x) || negb (isinst CInt (snd x) || isinst CFloat (snd x)) then false else true) d
-               = forallb (fun kv => is_field_value (snd kv)) d).
-  { apply forallb_ext. intros [k x]. cbn. destruct x; reflexivity. }
-  rewrite E1, E2. destruct (forallb (fun kv => is_str (fst kv)) d), (forallb (fun kv => is_field_value (snd kv)) d); reflexivity.
+               = forallb (fun kv => is_field_value (snd kv)) d)
+    by (apply forallb_ext; intros [k x]; cbn; destruct x; reflexivity);
+  rewrite E1, E2; destruct (forallb (fun kv => is_str (fst kv)) d), (forallb (fun kv => is_field_value (snd kv)) d); reflexivity ].
 Qed.
 
 (* hence: what the SOURCE's validators accept is exactly what has a typed reading *)
